@@ -1606,6 +1606,43 @@ func eachPathToReturn(fn *ssa.Function, e Edge, f func(path []*ssa.BasicBlock, r
 			delete(on, nb)
 		}
 	}
+	if e.B == nil {
+		// from the function entry
+		if len(fn.Blocks) > 0 {
+			walk(fn.Blocks[0], nil, map[*ssa.BasicBlock]bool{fn.Blocks[0]: true})
+		}
+		return
+	}
 	start := e.B.Succs[e.S]
 	walk(start, []*ssa.BasicBlock{e.B}, map[*ssa.BasicBlock]bool{start: true})
+}
+
+// eachEntryPathToReturn enumerates the feasible acyclic paths from the entry of fn to its returns.
+func eachEntryPathToReturn(fn *ssa.Function, f func(path []*ssa.BasicBlock, r *ssa.Return) bool) {
+	eachPathToReturn(fn, Edge{}, f)
+}
+
+// condOnPath classifies the branches taken along a path against a condition: it reports whether the
+// path takes some branch on which c is known true, and some on which it is known false (φ-flags
+// resolved along the path).
+func condOnPath(path []*ssa.BasicBlock, c CondM) (sawTrue, sawFalse bool) {
+	for i := 0; i+1 < len(path); i++ {
+		b := path[i]
+		if len(b.Instrs) == 0 {
+			continue
+		}
+		iff, isIf := b.Instrs[len(b.Instrs)-1].(*ssa.If)
+		if !isIf {
+			continue
+		}
+		if m, pos := c(resolveOnPath(path[:i+1], iff.Cond)); m {
+			takenTrue := b.Succs[0] == path[i+1]
+			if takenTrue == pos {
+				sawTrue = true
+			} else {
+				sawFalse = true
+			}
+		}
+	}
+	return
 }
